@@ -157,7 +157,7 @@ impl World {
                 let stop = e["stop"].as_u64().unwrap() as usize;
                 self.sink = match e["kind"].as_str().unwrap() {
                     "closure" => ledger::track(|| Sink::Closure(ClosureSink::new(stop))),
-                    "vec" => Sink::Vec { calls_unknown: (), got: vec![] },
+                    "vec" => Sink::Vec { calls_unknown: (), got: ledger::track(|| Vec::with_capacity(stop)) },
                     _ => Sink::Extend { got: VecDeque::new() },
                 };
                 self.last = ok;
@@ -327,7 +327,7 @@ fn trace(out: &str, seed: u64, events: usize) {
             }
             cand.push(match rng.below(3) {
                 0 => json!({"op":"NewSink","kind":"closure","stop":rng.below(6)}),
-                1 => json!({"op":"NewSink","kind":"vec","stop":0}),
+                1 => json!({"op":"NewSink","kind":"vec","stop":rng.below(7)}),
                 _ => json!({"op":"NewSink","kind":"extend","stop":0}),
             });
             if w.src.is_some() {
